@@ -64,7 +64,7 @@ def targeted_semspec(rng, g):
 
 def simple_rule_grammar(rng):
     """grammars where rule values are often plain strings so that failif/raiseif predicates fire"""
-    g = G.gen_grammar(rng, G.GenCfg(names=0.05, overrides=0.02, max_rules=4), depth=rng.choice([2, 3]))
+    g = G.gen_grammar(rng, G.GenCfg(names=0.05, overrides=0.02, max_rules=4, assoc=0.02), depth=rng.choice([2, 3]))
     rules = list(g['rules'])
     # add leaf rules returning single tokens and call them from the start rule
     leafs = []
